@@ -233,9 +233,32 @@ def run(tier, seed, replay=None):
                           lambda o, p: abs(math.hypot(np.linalg.norm(np.cross(p - c, nh)) - (r + 1), np.dot(p - c, nh)) - r2) < 1e-9),
                 'disc': ('292 1 0 0\n3\n%s\n%r\n%s\n%s\n1\n0\n0\n0\n0\n0 %r\n0 6.283185307179586\n0\n' % (fmt(c), r, fmt(nrm), fmt(xax), r),
                          lambda o, p: abs(np.dot(p - c, nh)) < 1e-9 and np.linalg.norm(p - c) <= r + 1e-9),
-                'plane': ('250 1 0 0\n3\n%s\n%s\n%s\n1\n0 1\n0 2\n0\n' % (fmt(c), fmt(nrm), fmt(xax)),
+                'plane': ('250 1 0 0\n3\n%s\n%s\n%s\n1\n%r %r\n%r %r\n0\n' % (fmt(c), fmt(nrm), fmt(xax), u0, u0 + 1.5, v0, v1),
                           lambda o, p: abs(np.dot(p - c, nh)) < 1e-9),
             }
+            # where the parametrisation is anchored (the records carry an x-axis): the point at the start of the angular /
+            # first parameter lies in the half plane spanned by the axis and the x-axis; a plane is  c + u x + v (n x x)
+            def anchored(name, o):
+                if name == 'circle':
+                    p0 = np.asarray(o.evaluate(o.start(0))).reshape(-1)
+                    return np.linalg.norm(p0 - (c + r * ex_)) < 1e-9
+                if name in ('sphere', 'cylinder', 'torus', 'disc'):
+                    ang = 1 if name in ('disc', 'torus') else 0       # disc: (radius, angle); torus: (tube angle, angle about the axis)
+                    for _ in range(3):
+                        par = [o.start(d_) + (o.end(d_) - o.start(d_)) * rng.random() for d_ in range(2)]
+                        par[ang] = o.start(ang)
+                        q = np.asarray(o.evaluate(*par)).reshape(-1) - c
+                        if abs(np.dot(q, ey_)) > 1e-9 or np.dot(q, ex_) < -1e-9:
+                            return False
+                    return True
+                if name == 'plane':
+                    for _ in range(3):
+                        par = [o.start(d_) + (o.end(d_) - o.start(d_)) * rng.random() for d_ in range(2)]
+                        q = np.asarray(o.evaluate(*par)).reshape(-1) - c
+                        if abs(np.dot(q, ex_) - par[0]) > 1e-9 or abs(np.dot(q, ey_) - par[1]) > 1e-9:
+                            return False
+                    return True
+                return True
             name = list(cases)[it % len(cases)]
             txt, on = cases[name]
             fn = os.path.join(tmp, 'p%d.g2' % it)
@@ -255,6 +278,10 @@ def run(tier, seed, replay=None):
                     if not on(o, p):
                         fail('g2 primitive', args, 'a point of the %s read from its record is not on the shape it describes' % name)
                         break
+                else:
+                    if not anchored(name, o):
+                        fail('g2 primitive', args, 'the %s read from its record is not placed on the x-axis the record gives '
+                                                   '(start of the first/angular parameter, or the plane parametrisation c + u x + v (n x x))' % name)
             except Exception as e:  # noqa
                 fail('g2 primitive', args, 'raised %s' % type(e).__name__)
 
